@@ -302,7 +302,7 @@ class _VDatetime(dt.datetime):
         return dt.datetime.fromtimestamp(cls.clock.t, tz)
 
 
-def _s3_timeout_bound(ctx, rep):
+def _s3_timeout_bound(ctx, rep, model_ok=False):
     """a contender blocked by a live holder for its whole timeout: TimeoutError within the configured bound (+ one poll interval)"""
     import random as _random
     import datashard.lock_provider as lpm
@@ -319,8 +319,11 @@ def _s3_timeout_bound(ctx, rep):
                 p._stop_heartbeat_thread = lambda: None
             saved = (lpm.time, dt.datetime, getattr(lpm, "random", None))
 
-            def sleep(s_, vt=vt):
-                vt.t += max(0.0, float(s_))
+            slept = []
+
+            def sleep(s_, vt=vt, slept=slept):
+                slept.append(int(round(max(0.0, float(s_)) * 1000)))
+                vt.t = vt.t + slept[-1] / 1000.0
             lpm.time = types.SimpleNamespace(time=vt.time, monotonic=vt.monotonic, sleep=sleep)
             if saved[2] is not None:
                 lpm.random = _random.Random(seed)
@@ -337,6 +340,11 @@ def _s3_timeout_bound(ctx, rep):
                     rep.violate("C19:s3-two-holders", f"acquired while a live holder is inside its lease (timeout {timeout})", case)
                 except TimeoutError:
                     el = vt.t - t0
+                    if model_ok:
+                        m = driver.ask([f"lock.poll {int(timeout * 1000)} " + " ".join(map(str, slept))])[0]
+                        rep.corr_cases += 1
+                        if m != f"timeout@{int(round(el * 1000))}":
+                            rep.diverge("lock.poll (S3LockProvider.acquire polling loop)", {**case, "sleeps_ms": slept}, m, f"timeout@{int(round(el * 1000))}")
                     if el > timeout + POLL_MAX:
                         rep.violate("C19:timeout-exceeded", f"S3 lock: TimeoutError after {el:.2f}s (virtual) with timeout {timeout}s", case)
                     if el < timeout:
@@ -540,7 +548,7 @@ def run(ctx, model_ok):
                 rep.notes.append(f"flock case {i} stuck: {e}")
         _stress(ctx, rep, base)
         _flock_gap(ctx, rep, base)
-        _s3_timeout_bound(ctx, rep)
+        _s3_timeout_bound(ctx, rep, model_ok)
         try:
             _s3_case(ctx, rep, rng, model_ok, -1, directed=RELEASE_SPANS_TAKEOVER)
         except sched.Stuck as e:
